@@ -75,7 +75,8 @@ func VfC12_FaultSteps() {
 	s.processUserEvent(UserEvent{LTime: LamportTime(vfU64("elt")), Name: "e"})
 	vfReach("C12.step2.survived")
 	// a recovery compaction that ran in step 2 (after the fault had cleared) must have brought the snapshot back
-	recoveryRan := faultInStep1 && !s.lastAttemptedCompaction.Equal(before2) && vfOps > ops2
+	recoveryRan := faultInStep1 && !s.lastAttemptedCompaction.Equal(before2)
+	_ = ops2
 	if vfTier() == 1 {
 		s.processQuery(&Query{LTime: LamportTime(vfU64("qlt")), Name: "q"})
 	}
